@@ -82,7 +82,7 @@ def run_one(engine, seed, acc, tier):
     kind = 'synth' if engine.startswith('synth') else 'shipped'
     run = c19.solve_cli(case, kind, keep_old_solution=True)       # over the prelude's solution file
     fs = []
-    if run.outcome == 'solved' and run.solution_file:
+    if run.outcome in ('solved', 'failed') and run.solution_file:
         from .. import pipeline
         year, year_forms, by_name = c19.year_forms_for(case, kind)
         text = pipeline.relayout(run.solution_file, case['pipe'].get('relayout'))
